@@ -52,6 +52,13 @@ func init() {
 		opts := []store.Option{store.Pretty(mask&1 != 0), store.EmitUnpopulated(mask&2 != 0), store.UseProtoNames(mask&4 != 0),
 			store.UseEnumNumbers(mask&8 != 0), store.EmitTimezones(mask&16 != 0), store.LocationName(loc)}
 		var parts []string
+		if len(a[3])%2 == 0 {
+			// an earlier run left longer files of the same names in the output directory (stale tails must not survive)
+			os.MkdirAll(w.Conf, 0o755)
+			for _, ext := range []string{".json", ".txt", ".bin"} {
+				os.WriteFile(filepath.Join(w.Conf, string(md.Name())+ext), []byte(strings.Repeat("{\"stale\": 1} ", 20000)), 0o644)
+			}
+		}
 		for _, f := range []format.Format{format.JSON, format.Text, format.Bin} {
 			tag := map[format.Format]string{format.JSON: "json", format.Text: "text", format.Bin: "bin"}[f]
 			if err := store.Store(orig.Interface(), w.Conf, f, opts...); err != nil {
